@@ -121,7 +121,10 @@ def tie(ctx):
                 inp = {"gene_yaml": y, "genome": genome, "cn_region": [cnr.start, cnr.end], "clean": clean}
 
                 def run(sample_reads, tag, profile_path=pbam, use_cnr=True):
-                    sb = os.path.join(d, f"s{k}_{tag}.bam")
+                    # every variant of a case is a file called `sample.bam` in a directory of its own: the same sample
+                    # name (and the same neutral region) must not make one file stand in for another
+                    os.makedirs(os.path.join(d, f"s{k}_{tag}"), exist_ok=True)
+                    sb = os.path.join(d, f"s{k}_{tag}", "sample.bam")
                     write(sb, sample_reads, gene)
                     try:
                         prof = Profile.load(gene, profile_path, cnr if use_cnr else None)
